@@ -452,6 +452,8 @@ class InstructionNodeCreator:
             command in MID_ROW_CODES
             and prev_text_node
             and not prev_node_is_break
+            # a pending repositioning: the previous text is on another row
+            and not self._position_tracer.is_repositioning_required()
             and not prev_text_node.text[-1].isspace()
             and command not in PAC_TAB_OFFSET_COMMANDS
             and not next_is_punctuation
